@@ -84,6 +84,46 @@ def selftest(ctx, obs):
     ctx.notes["testlog_selftest"] = "flipped bit and changed content identity rejected, unchanged line accepted"
 
 
+def judge_ticks(ctx, obs):
+    """C11 over the same log: integer times stay integer under calls with integer arguments (Trace_TickLog)"""
+    slim = [{k: o[k] for k in ("id", "grp", "new", "gap", "raised", "kinds", "argKinds", "known")} for o in obs]
+    for x in slim:
+        x["obj"] = x["grp"]
+    return ctx.validate("Trace_TickLog", "Trace_TickLog.cfg", slim, group="grp", per_shard_min=2000)
+
+
+def run_ticks(ctx, replay_obs=None):
+    if replay_obs is not None:
+        test = replay_obs.get("test", "")
+        obs, summary = record(ctx, [replay_obs["file"]], select=test.split("::", 1)[1] if "::" in test else None)
+    else:
+        obs, summary = record(ctx, None if ctx.thorough else QUICK_FILES + ["test_bar.py"])
+    if not obs:
+        raise core.MachineryError(f"the recorder produced no lines: {summary}")
+    for i, o in enumerate(obs):
+        o["id"] = 10_000_000 + i
+    ver = judge_ticks(ctx, obs)
+    judged = sum(1 for v in ver if v.get("judged"))
+    if replay_obs is None:
+        if judged == 0:
+            raise core.MachineryError("vacuity: no logged call was judged for integer times")
+        # the binding bites: a judged line whose kinds are replaced by a float must be rejected
+        import copy
+        k = next(i for i, v in enumerate(ver) if v.get("judged"))
+        grp = obs[k]["grp"]
+        hist = [copy.deepcopy(o) for o in obs if o["grp"] == grp][:50]
+        j = next(i for i, o in enumerate(hist) if o["id"] == obs[k]["id"])
+        hist[j]["kinds"] = ["float", "int"]
+        for i, o in enumerate(hist):
+            o.update(id=i, grp="selftest")
+        sv = judge_ticks(ctx, hist)
+        if "times-stay-integers" not in sv[j]["fails"]:
+            raise core.MachineryError(f"self-test: a float time in the log was not rejected: {sv[j]}")
+    cov = {"repo_tests_logged_calls": len(obs), "repo_tests_calls_judged_for_integer_times": judged,
+           "repo_tests_objects": len(set(o["grp"] for o in obs)), "repo_tests_files": summary}
+    return obs, ver, cov
+
+
 def nontrivial(o):
     return ("log", o["file"], o["obj"], o["n"])
 
